@@ -95,7 +95,7 @@ func init() {
 
 func runC05(w *fw.W) {
 	var ip *interp.Interp
-	nh := w.Pick(640, 30000)
+	nh := w.Pick(3200, 80000)
 	for h := 0; h < nh; h++ {
 		if !w.Take() {
 			continue
@@ -169,6 +169,32 @@ func runC05(w *fw.W) {
 				p := rng.Intn(id)
 				f.objs = append(f.objs, &c5obj{id: id, parent: p, props: map[string]c5prop{}})
 				run(fmt.Sprintf("%s := o%d.bear", name, p))
+			case rng.Intn(5) == 0:
+				// the own props come from an existing object (not a literal): the new object is a child of the
+				// receiver (bear) / of the receiver's proto (bro) holding that object's own props only
+				s := rng.Intn(id)
+				cp := map[string]c5prop{}
+				for k, v := range f.objs[s].props {
+					cp[k] = v
+				}
+				f.objs[s].hasUID = false // structurally equal twins: not used as kindOf? targets
+				counters["define_from_object"]++
+				switch v := rng.Intn(5); v {
+				case 0:
+					f.objs = append(f.objs, &c5obj{id: id, parent: -1, props: cp})
+					run(fmt.Sprintf("%s := Obj.bear(o%d)", name, s))
+				case 1:
+					f.objs = append(f.objs, &c5obj{id: id, parent: -1, props: cp})
+					run(fmt.Sprintf("%s := %s.bro(o%d)", name, []string{"{}", "{zz: 1}"}[rng.Intn(2)], s))
+				case 2:
+					a := rng.Intn(id)
+					f.objs = append(f.objs, &c5obj{id: id, parent: f.objs[a].parent, props: cp})
+					run(fmt.Sprintf("%s := o%d.bro(o%d)", name, a, s))
+				default:
+					p := rng.Intn(id)
+					f.objs = append(f.objs, &c5obj{id: id, parent: p, props: cp})
+					run(fmt.Sprintf("%s := o%d.bear(o%d)", name, p, s))
+				}
 			case rng.Intn(3) == 0:
 				s := rng.Intn(id)
 				props, lit := newProps(id, true)
@@ -249,7 +275,60 @@ func runC05(w *fw.W) {
 				}
 				return "", "NoPropErr"
 			}
-			switch q := rng.Intn(12); {
+			// model result of calling `name` on object j with first argument arg ("" : the callee would read an undefined uid)
+			resultOn := func(j int, arg string) (want, werr string, ok bool) {
+				_, pj, fj := f.find(j, name)
+				_, mpj, mfj := f.find(j, "_missing")
+				u := f.uid(j)
+				if u == "" && (fj && pj.kind != "value" || !fj && mfj) {
+					return "", "", false
+				}
+				switch {
+				case fj && pj.kind == "value":
+					return fmt.Sprint(pj.val), "", true
+				case fj && pj.kind == "func":
+					return fmt.Sprintf(`["f%d", %s, %s]`, pj.val, u, arg), "", true
+				case fj && pj.kind == "method":
+					return fmt.Sprintf(`["m%d", %s, %s]`, pj.val, u, arg), "", true
+				case mfj:
+					return fmt.Sprintf(`["missing%d", %s, "%s", %s]`, mpj.val, u, name, arg), "", true
+				}
+				return "", "NoPropErr", true
+			}
+			q := rng.Intn(15)
+			if q >= 12 {
+				// the same call spread over several receivers by a list chain, with 0–6 arguments: every element is
+				// resolved on its own and receives the same arguments
+				n := 2 + rng.Intn(3)
+				nargs := rng.Intn(7)
+				argv := []string{"7", "8", "9", "10", "11", "12"}[:nargs]
+				arg := "nil"
+				if nargs > 0 {
+					arg = "7"
+				}
+				var els, wants []string
+				werr := ""
+				for k := 0; k < n; k++ {
+					j := rng.Intn(len(f.objs))
+					want, e, ok := resultOn(j, arg)
+					if !ok {
+						return
+					}
+					els = append(els, fmt.Sprintf("o%d", j))
+					if e != "" && werr == "" {
+						werr = e
+					}
+					wants = append(wants, want)
+				}
+				src := "[" + strings.Join(els, ", ") + "]@" + name
+				if nargs > 0 {
+					src += "(" + strings.Join(argv, ", ") + ")"
+				}
+				qtag = fmt.Sprintf("|n%d|args%d", n, nargs)
+				expect("list-chain call", class, src, "["+strings.Join(wants, ", ")+"]", werr)
+				return
+			}
+			switch {
 			case q < 2:
 				if uid == "" && (found && p.kind != "value" || !found && mFound) {
 					return // the callee would read an undefined uid
@@ -261,7 +340,7 @@ func runC05(w *fw.W) {
 					return
 				}
 				want, werr := callResult("7")
-				expect("o.name(arg)", class, on+"."+name+"(7)", want, werr)
+				expect("o.name(arg)", class, on+"."+name+"("+[]string{"7", "7, 8", "7, 8, 9", "7, 8, 9, 10, 11"}[rng.Intn(4)]+")", want, werr)
 			case q == 4:
 				switch {
 				case found && p.kind == "value":
